@@ -46,10 +46,12 @@ def gen_tree(rng, depth, tier):
             return {"k": "const", "m": rnd_m(rng)}
         if k < 0.65:
             deg = int(rng.integers(0, 3))
-            style = str(rng.choice(["func", "str", "array0", "array1", "func_args", "func_kwonly", "func_dict"]))
+            style = str(rng.choice(["func", "str", "array0", "array1", "func_args", "func_kwonly", "func_dict", "number", "constcoeff"]))
             c = [[int(a), int(b)] for a, b in rng.integers(-2, 3, size=(deg + 1, 2))]
             if style == "array0" or style == "array1":
                 c = c[:2]
+            if style in ("number", "constcoeff"):
+                c = c[:1]
             return {"k": "evo", "m": rnd_m(rng), "c": c, "style": style,
                     "grid": "u" if style == "array0" else str(rng.choice(["u", "a", "b", "c", "d", "e"]))}
         return {"k": "func", "a": rnd_m(rng), "b": rnd_m(rng), "style": str(rng.choice(["plain", "args", "shared", "shared", "kwonly", "dictargs", "defaulted", "defaulted"]))}
@@ -129,6 +131,12 @@ def build_real(node):
         st = node["style"]
         if st == "func":
             return qutip.QobjEvo([[q, lambda t, c=c: poly(c, t)]])
+        if st in ("number", "constcoeff"):
+            # a coefficient that is a plain number / a constant Coefficient: still a coefficient
+            from qutip.core.coefficient import const
+            node["c"] = c[:1]
+            z = complex(c[0][0], c[0][1])
+            return qutip.QobjEvo([[q, z]]) if st == "number" else qutip.QobjEvo(q * const(z))
         if st == "func_args":
             return qutip.QobjEvo([[q, lambda t, w, c=c: w * poly(c, t)]], args={"w": BUILD_ARGS["w"]})
         if st == "func_kwonly":
